@@ -67,6 +67,18 @@ Theorem c17_expression_tokens_in_order : forall s lo l hi i e1 e2,
 Proof. exact chain_adjacent. Qed.
 Print Assumptions c17_expression_tokens_in_order.
 
+(** A path token spans exactly the text [accept_path] scanned: it starts where
+    the scan started and stops where the scanner stopped — after dotted names,
+    bracketed segments, nested paths and (fix C17/0005) a trailing shorthand
+    index alike. ([carry]: the first word was already consumed by accept_token;
+    otherwise the scan starts at an opening bracket.) *)
+Theorem c17_path_token_span_exact : forall sh s f t carry t' tok,
+  le_L s t -> (carry = false -> sane s t /\ peek_at s (pos t) = Some 91%N) ->
+  accept_path sh s f t carry = Ok (t', tok) ->
+  etok_start tok = start t /\ etok_stop tok = Z.of_nat (pos t').
+Proof. exact accept_path_span_exact. Qed.
+Print Assumptions c17_path_token_span_exact.
+
 (** The position carried by a lexer error lies in [0, |s|] — |s| itself only
     for an error detected at end of input (what the fixed code guarantees: the
     formatter accepts that position, see C02). *)
